@@ -3,6 +3,7 @@ C04 — property theorems (statements only; helper lemmas live in `Proofs/C04*.l
 -/
 import Mahotas.Proofs.C04Flood
 import Mahotas.Proofs.C04Term
+import Mahotas.Proofs.C04Lines
 open Mahotas Mahotas.C04
 
 /-- **C04-T3 (the kernel is the specified flooding).** For every surface (any rank, shape, values),
@@ -91,6 +92,22 @@ theorem C04_unreached_zero (surf markers : Img Int) (bshape : List Nat) (bc : Ar
     (modelLabels surf markers bshape bc).getD p 0 = 0 := by
   by_contra hl
   exact hun (C04_regions_connected surf markers bshape bc hm hb p hp hl).reach
+
+/-- **C04-T5c (lines lie on region boundaries).** Every pixel that is True in the lines output of the
+kernel model was reached through the neighbourhood from a labelled pixel whose final label differs from
+its own final label (labels never change once set, so the label seen at the visit is the final one);
+in particular a line pixel is labelled and is never interior to a single region's reach. -/
+theorem C04_lines_on_boundaries (surf markers : Img Int) (bshape : List Nat) (bc : Array Int)
+    (hm : markers.shape = surf.shape) (hb : bshape.length = surf.shape.length) (r : List Int)
+    (hr : inside surf.shape r = true)
+    (hl : (⟨surf.shape, (cwatershedModel surf markers bshape bc).lines⟩ : Img Bool).getD r false = true) :
+    Boundary surf.shape (offsets bshape bc) (fun x => (modelLabels surf markers bshape bc).getD x 0) r := by
+  have h := cwatershed_rel surf markers bshape bc hm hb
+  have hlines : (⟨surf.shape, (cwatershedModel surf markers bshape bc).lines⟩ : Img Bool)
+      = (cwatershedSpec surf markers bshape bc).lines := by rw [← h.ndata, ← h.nshape]
+  rw [hlines] at hl
+  rw [modelLabels_eq surf markers bshape bc hm hb]
+  exact (cwatershedSpec_linv surf markers bshape bc).line r hr hl
 
 /-- non-vacuity: a 2×3 surface with two markers and the cross; both runs drain their queues -/
 example :
